@@ -1386,6 +1386,13 @@ fn gen_case(rng: &mut Rng) -> Case {
 
 fn corpus() -> Vec<&'static str> {
     vec![
+        // the minimal inputs of the findings (findings/C09.json): D04, D04 (underflow), D05, D05 (header row), D39, D39
+        "de 0,0,1,1/I:1 N seq 0 any",
+        "de 1,7,1,1/_ A map 2 any",
+        "de 0,0,1,1/E:0 N seq 1 any",
+        "de 0,0,1,2/I:1,E:1 A seq 0 any",
+        "de 4294967295,0,1,1/S:61 A seq 1 any",
+        "de 4294967294,0,2,1/_,B:1 A map 3 i64",
         // D04: three data rows, no headers: size_hint was (2,Some(2)) before, during and after
         "de 0,0,3,1/I:1,I:2,I:3 N seq 4 any",
         // D04: header-only range: size_hint underflowed (panic under overflow checks)
